@@ -129,7 +129,9 @@ package db
 //@   opt safety=assumed panics=allowed
 //@   requires l.cache != l.maindb && l.txcache != l.maindb
 //@   ensures result == nil
-//@   ensures l.maindb == old(l.maindb) && l.maindb.kvhas == old(l.maindb.kvhas) && l.maindb.kvval == old(l.maindb.kvval)
+//@   ensures l.maindb == old(l.maindb)
+//@   ensures l.maindb.kvhas == old(l.maindb.kvhas)
+//@   ensures l.maindb.kvval == old(l.maindb.kvval)
 //@   ensures old(l.intx) ==> l.txcache != nil && l.txcache.kvhas[bytes(key)] && l.txcache.kvval[bytes(key)] == bytes(value)
 //@   ensures !old(l.intx) && l.cache != nil ==> l.cache.kvhas[bytes(key)] && l.cache.kvval[bytes(key)] == bytes(value)
 //@   ensures old(l.intx) && old(l.txcache) != nil ==> forall k Bytes :: k != bytes(key) ==> l.txcache.kvhas[k] == old(l.txcache.kvhas[k]) && l.txcache.kvval[k] == old(l.txcache.kvval[k])
